@@ -48,6 +48,23 @@ static unique_ptr<AbstractNumericalDerivative> mkScheme(int s, shared_ptr<Fn> f)
 }
 static vector<string> selection(int k) { if (k == 0) return {"x"}; if (k == 1) return {"y"}; if (k == 2) return {"x", "y"}; return {"y", "x"}; }
 
+// three-variable polynomial (total degree <= 3, symbolic coefficients) for the cross-derivative job: with three variables the stencil of one pair must be
+// evaluated with the third variable at its requested value
+class Fn3 : public virtual SecondOrderDerivable, public AbstractParametrizable {
+public:
+  double c[4][4][4];
+  Fn3() : AbstractParametrizable("") { for (int i = 0; i < 4; i++) for (int j = 0; j < 4; j++) for (int k = 0; k < 4; k++) { c[i][j][k] = 0; if (i + j + k <= 3) { c[i][j][k] = symd("c" + to_string(i) + to_string(j) + to_string(k)); SYM_ASSUME(c[i][j][k] >= -10 && c[i][j][k] <= 10); } }
+    addParameter_(new Parameter("x", 1.0)); addParameter_(new Parameter("y", 1.0)); addParameter_(new Parameter("z", 1.0)); }
+  Fn3* clone() const override { return new Fn3(*this); }
+  void setParameters(const ParameterList& pl) override { matchParametersValues(pl); }
+  static double pw(double b, int k) { double r = 1; for (int i = 0; i < k; i++) r *= b; return r; }
+  double poly(double x, double y, double z, int dx, int dy, int dz) const { double s = 0; for (int i = dx; i <= 3; i++) for (int j = dy; i + j <= 3; j++) for (int k = dz; i + j + k <= 3; k++) { double f = 1; for (int t = 0; t < dx; t++) f *= (i - t); for (int t = 0; t < dy; t++) f *= (j - t); for (int t = 0; t < dz; t++) f *= (k - t); s += f * c[i][j][k] * pw(x, i - dx) * pw(y, j - dy) * pw(z, k - dz); } return s; }
+  double getValue() const override { double v = poly(getParameterValue("x"), getParameterValue("y"), getParameterValue("z"), 0, 0, 0); SYM_ASSUME(v > -1e6 && v < 1e6); return v; }
+  void enableFirstOrderDerivatives(bool) override {} bool enableFirstOrderDerivatives() const override { return true; }
+  void enableSecondOrderDerivatives(bool) override {} bool enableSecondOrderDerivatives() const override { return true; }
+  double getFirstOrderDerivative(const string&) const override { return 0; } double getSecondOrderDerivative(const string&) const override { return 0; } double getSecondOrderDerivative(const string&, const string&) const override { return 0; }
+};
+
 extern "C" void verif_harness() {
   int which = __sym_choose("harness", HLO, HHI);
   int scheme = __sym_choose("scheme", 0, 2);
@@ -106,6 +123,17 @@ extern "C" void verif_harness() {
     if (what == 0) SYM_ASSERT_EQ(nd->getFirstOrderDerivative("x"), f->poly(x1, y1, 1, 0), "one-sided first derivative differs from the analytic one on a linear function");
     else SYM_ASSERT_EQ(nd->getSecondOrderDerivative("x"), f->poly(x1, y1, 2, 0), "one-sided second derivative differs from the analytic one on a quadratic");
     SYM_ASSERT(f->getParameterValue("x") == x1 && f->getParameterValue("y") == y1, "wrapped function is not left at the requested point next to a constraint");
+  } else if (which == 4) {
+    // ---- three variables: every cross derivative exact on cubic polynomials, first/second derivatives still exact, function left at the requested point ----
+    if (scheme != 1) return;
+    auto f = make_shared<Fn3>(); shared_ptr<SecondOrderDerivable> g = f; ThreePointsNumericalDerivative nd(g); nd.setInterval(h);
+    static const char* ORD[3][3] = {{"x", "y", "z"}, {"z", "x", "y"}, {"y", "z", "x"}}; int o = __sym_choose("order", 0, 2); nd.setParametersToDerivate({ORD[o][0], ORD[o][1], ORD[o][2]}); nd.enableSecondOrderCrossDerivatives(true);
+    double x = symd("x1"), y = symd("y1"), z = symd("z1"); SYM_ASSUME(x >= -10 && x <= 10 && y >= -10 && y <= 10 && z >= -10 && z <= 10 && !(x == 0) && !(y == 0) && !(z == 0) && !(x == 1) && !(y == 1) && !(z == 1));
+    ParameterList pl; pl.addParameter(Parameter("x", x)); pl.addParameter(Parameter("y", y)); pl.addParameter(Parameter("z", z)); nd.setParameters(pl);
+    SYM_ASSERT_EQ(nd.getSecondOrderDerivative("x", "y"), f->poly(x, y, z, 1, 1, 0), "cross derivative (x,y) differs from the analytic one with three variables"); SYM_ASSERT_EQ(nd.getSecondOrderDerivative("x", "z"), f->poly(x, y, z, 1, 0, 1), "cross derivative (x,z) differs from the analytic one with three variables");
+    SYM_ASSERT_EQ(nd.getSecondOrderDerivative("y", "z"), f->poly(x, y, z, 0, 1, 1), "cross derivative (y,z) differs from the analytic one with three variables"); SYM_ASSERT_EQ(nd.getSecondOrderDerivative("z", "y"), f->poly(x, y, z, 0, 1, 1), "cross derivative (z,y) differs from the analytic one with three variables");
+    SYM_ASSERT_EQ(nd.getSecondOrderDerivative("y"), f->poly(x, y, z, 0, 2, 0), "second derivative in y differs with three variables");
+    SYM_ASSERT(f->getParameterValue("x") == x && f->getParameterValue("y") == y && f->getParameterValue("z") == z, "wrapped function is not left at the requested point (three variables, cross derivatives on)");
   } else {
     // ---- delegation: derivatives for variables that were not selected come from the wrapped function ----
     Box none{false, 0, 0}; double x1 = anyIn("x1", none), y1 = anyIn("y1", none);
